@@ -165,6 +165,7 @@ type lcResult struct {
 	Counts     []string `json:"counts"`
 	Nontrivial bool     `json:"nt"`
 	Fail       string   `json:"fail"` // harness failure
+	Millis     int64    `json:"ms"`
 }
 
 func (r *lcResult) violate(prop, oracle, key, detail string) {
@@ -487,7 +488,12 @@ func (e *lcEnv) finish(abandoned map[string]bool) {
 		e.closeClient()
 	}
 	if e.cl != nil {
-		// "idempotent close": closing again, from two goroutines, returns and does not panic
+		if n := lcSettle(e.base, lcWaitEvent); n > e.base {
+			e.res.violate("C11", "no-goroutine-left", "lts.cli:goroutines-after-close",
+				fmt.Sprintf("%d goroutine(s) started by the client still running %v after Close: %s (yield log: %s)", n-e.base, lcWaitEvent, lcGoroutineDump(), strings.Join(e.dir.log, ",")))
+		}
+		// "idempotent close": closing again, from two goroutines, returns and does not panic (after the goroutine
+		// check: a second Close must not be what cleans up behind the first)
 		again := make(chan string, 2)
 		for i := 0; i < 2; i++ {
 			go func() {
@@ -505,10 +511,6 @@ func (e *lcEnv) finish(abandoned map[string]bool) {
 				e.res.violate("C11", "returns-promptly", "lts.cli:second-close-hangs", "a second Close() did not return")
 				i = 2
 			}
-		}
-		if n := lcSettle(e.base, lcWaitEvent); n > e.base {
-			e.res.violate("C11", "no-goroutine-left", "lts.cli:goroutines-after-close",
-				fmt.Sprintf("%d goroutine(s) started by the client still running %v after Close: %s (yield log: %s)", n-e.base, lcWaitEvent, lcGoroutineDump(), strings.Join(e.dir.log, ",")))
 		}
 	}
 	// a connection that carried an abandoned exchange carries no later exchange (only the requests of the
@@ -631,6 +633,8 @@ func (e *lcEnv) dial(enforce bool) error {
 
 func lcRun(spec *lcSpec) *lcResult {
 	res := &lcResult{Spec: spec.String(), Props: "C11"}
+	t0 := time.Now()
+	defer func() { res.Millis = time.Since(t0).Milliseconds() }()
 	e := newLcEnv(spec, res)
 	switch spec.fam {
 	case "c10":
@@ -798,6 +802,9 @@ func (e *lcEnv) c10Round(round int, deadline bool, abandoned map[string]bool) (b
 		n = 1 // the second victim is alone
 	} else {
 		skip = len(spec.faults) // each (retryable) fault costs the victim one attempt
+		if spec.pt == "beforeReconnect" {
+			skip = 0 // the point lies between the attempts
+		}
 	}
 	vid := e.id("v")
 	switch spec.srv {
@@ -1491,7 +1498,7 @@ type lcDry struct {
 func lcSpecs(ctx *Ctx, dry lcDry) []string {
 	var out []string
 	add := func(s *lcSpec) { out = append(out, s.String()) }
-	reps := ctx.N(1, 6) // thorough: the same scenarios again under random perturbation of the yield points
+	reps := ctx.N(2, 8) // the same scenarios again under random perturbation of the yield points
 	for rep := 0; rep < reps; rep++ {
 		seed := 0
 		if rep > 0 {
@@ -1521,7 +1528,7 @@ func lcSpecs(ctx *Ctx, dry lcDry) []string {
 			add(&lcSpec{fam: "c10", n: n, pt: "queued", srv: "early", next: "dl", seed: seed})
 		}
 		// the context ends in the retry loop: the first attempt hits an end of stream, the second one is abandoned
-		for _, pt := range []string{"loaded", "afterSend", "inWrite"} {
+		for _, pt := range []string{"loaded", "afterSend", "inWrite", "beforeReconnect"} {
 			for _, next := range []string{"-", "dl", "twice"} {
 				add(&lcSpec{fam: "c10", n: 2, pt: pt, srv: "early", next: next, seed: seed,
 					faults: []*lcFault{{dir: 'r', conn: 0, k: r0 - 1, kind: "eof", timing: "data"}}})
@@ -1535,7 +1542,7 @@ func lcSpecs(ctx *Ctx, dry lcDry) []string {
 			}
 		}
 		for k := r0 - 1; k < r1; k++ {
-			for _, kind := range []string{"eof", "closed", "reset", "partial"} {
+			for _, kind := range []string{"eof", "closed", "reset", "partial", "timeout", "ueof"} {
 				for _, tm := range []string{"call", "data"} {
 					if kind == "partial" && tm == "call" {
 						continue
@@ -1649,6 +1656,9 @@ func lcRegister(ctx *Ctx, r *lcResult) {
 			continue
 		}
 		ctx.Res.Count(c)
+	}
+	if r.Millis > 1000 {
+		ctx.Res.Count("slow scenario (>1s): " + r.Spec)
 	}
 	ctx.Add(line, "ok in", r.Nontrivial, r.Props)
 }
